@@ -12,10 +12,18 @@ Content(m) == UNION { [1..k -> NonLF] : k \in 1..m } \ { <<"C">> }   \* <<>> and
 FirstRem == { <<>>, <<"C">>, <<"a">> }
 Blank == { <<>>, <<"C">> }
 LF == <<"L">>
+\* longer, grammar-shaped header lines: name ":" OWS value OWS (CR)
+NameS == { <<"a">>, <<"a", "a">> }
+OWS == { <<>>, <<"S">>, <<"S", "S">> }
+ValS == { <<>>, <<"a">>, <<"a", "S", "a">>, <<":">> }
+GLines == { n \o <<":">> \o o \o v \o t \o e : n \in NameS, o \in OWS, v \in ValS, t \in {<<>>, <<"S">>}, e \in Blank }
+GSmall == { <<"a", ":">> \o o \o v \o e : o \in {<<>>, <<"S">>}, v \in {<<"a">>, <<"a", "S", "a">>}, e \in Blank }
 AllHeads ==
        { f \o LF \o b \o LF : f \in FirstRem, b \in Blank }
   \cup { f \o LF \o c \o LF \o b \o LF : f \in FirstRem, c \in Content(M1), b \in Blank }
   \cup { f \o LF \o c \o LF \o d \o LF \o b \o LF : f \in FirstRem, c \in Content(M2), d \in Content(M2), b \in Blank }
+  \cup { f \o LF \o c \o LF \o b \o LF : f \in Blank, c \in GLines, b \in Blank }
+  \cup { f \o LF \o c \o LF \o d \o LF \o b \o LF : f \in Blank, c \in GSmall, d \in GSmall, b \in Blank }
 ASSUME PrintT(<<"HEADS", Cardinality(AllHeads)>>)
 ASSUME ndJsonSerialize("vectors.ndjson",
          <<[conts |-> SetToSeq(Conts)]>> \o SetToSeq({ [h |-> t, verdict |-> Verdict(t)] : t \in AllHeads }))
